@@ -15,7 +15,7 @@ From Coq Require Import ZArith List Bool String Lia.
 From FV Require Import Model.PegSyntax Model.Peg Model.PegWf Model.ParserStrings Model.ParserAst Model.ParserActions
      Model.Parser Model.ParserFiles Gen.Grammar Proofs.PegProofs Proofs.ParserProofs Proofs.ParserLexProofs
      Proofs.ParserEvals Proofs.ParserRoundTrip Proofs.ParserRoundTripEnum Proofs.ParserPrefixProofs
-     Proofs.ParserRoundTripStruct Proofs.ParserRoundTripFile.
+     Proofs.ParserRoundTripStruct Proofs.ParserRoundTripConst Proofs.ParserRoundTripFile.
 Import ListNotations.
 Open Scope Z_scope.
 
@@ -174,9 +174,13 @@ Theorem c10_enum_numbering_end_to_end : forall e : en_spec,
 Proof. exact enum_of_numbering. Qed.
 Print Assumptions c10_enum_numbering_end_to_end.
 
-(** * Stage 5, continued: the fragment grown to struct / exception / union declarations with fields.
+(** * Stage 5, continued: the fragment grown to struct / exception / union declarations with fields
+    and to const declarations.
     For every sequence of declarations, each either a typedef of a base type or an enum exactly as in
     [c10_roundtrip_partial], or
+        const <blanks> type name <blanks> = <blanks> value <blanks> LF <blanks/LFs>
+    with  value  the decimal spelling of any 64-bit integer or a double-quoted string of ASCII characters
+    other than the double quote, backslash and line break, or
         struct|exception|union <blanks> name <blanks/LFs> { <blanks/LFs> field* } <blanks> LF <blanks/LFs>
     where a field is
         id <blanks> : <blanks> [required <blanks> | optional <blanks>] type name TAIL
@@ -188,23 +192,41 @@ Print Assumptions c10_enum_numbering_end_to_end.
     identifier-shaped byte string, and TAIL one of the three separator styles
         W  |  W , W'  |  W ; W'
     (W, W' arbitrary runs of blanks and line breaks; a field with nothing at all after its name only in
-    last position): the parser model -- additionally through Struct, Exception, Union, StructLike,
-    FieldList, Field (with its absent doc comment, default value and annotations), FieldModifier,
-    FieldType, ContainerType, MapType, SetType, ListType (with the absent cpp_type), WS and the failing
-    alternatives of each choice, and the actions Struct1, Exception1, Union1, StructLike1, FieldList1,
-    Field1, FieldModifier1, ContainerType1, MapType1, SetType1, ListType1 and the struct branches of
-    Grammar1 -- returns exactly the declared typedefs, enums, structs, exceptions and unions, each list
-    in source order: every field with its id, name, modifier (default when none is written; all fields
-    of a union optional, as the Grammar action makes them), type tree, no default value, no comment, no
+    last position): the parser model -- additionally through Const, ConstValue (Literal, and for an
+    integer the failing Literal, BoolConstant and DoubleConstant -- which consumes sign and digits and
+    backtracks at the missing '.' -- before IntConstant), Literal with its action strconv.Unquote,
+    Struct, Exception, Union, StructLike, FieldList, Field (with its absent doc comment, default value
+    and annotations), FieldModifier, FieldType, ContainerType, MapType, SetType, ListType (with the
+    absent cpp_type), WS and the failing alternatives of each choice, and the actions Const1, Literal1,
+    Struct1, Exception1, Union1, StructLike1, FieldList1, Field1, FieldModifier1, ContainerType1,
+    MapType1, SetType1, ListType1 and the const / struct / exception / union branches of Grammar1 --
+    returns exactly the declared typedefs, constants, enums, structs, exceptions and unions, each list
+    in source order: every constant with its name, type tree and value (the integer, or the string's
+    characters); every field with its id, name, modifier (default when none is written; all fields of a
+    union optional, as the Grammar action makes them), type tree, no default value, no comment, no
     annotations; and nothing else.
-    PARTIAL with respect to the property: named (identifier) field types, field default values,
-    services, scopes, constants, includes, namespaces, comments, doc comments, annotations, cpp_type and
-    the ';' / end-of-file statement terminators are not inside the proved fragment. *)
+    PARTIAL with respect to the property: named (identifier) types, field default values, constants
+    with double / bool / list / map / identifier values or strings with escapes or single quotes,
+    services, scopes, includes, namespaces, comments, doc comments, annotations, cpp_type and the ';' /
+    end-of-file statement terminators are not inside the proved fragment (correspondence runs only). *)
 Theorem c10_roundtrip_structs_partial : forall (w0 : bytes) (ds : list xdecl),
   run_of p_wsnl w0 -> Forall xdecl_ok ds ->
   parse_idl (w0 ++ render_file ds) = POk (frugal_of ds).
 Proof. exact roundtrip_file. Qed.
 Print Assumptions c10_roundtrip_structs_partial.
+
+(** constant values alone, at the level of the generated rule ConstValue: the decimal spelling of any
+    64-bit integer followed by something that is neither a digit nor '.', and any plain double-quoted
+    string, are consumed exactly and yield the integer / the string's characters, no error recorded *)
+Theorem c10_const_value_roundtrip :
+  (forall z follow cr o es fr, int64 z -> stops p_digit follow -> head_not [46] follow ->
+     evals (CRef 30) cr (mkst (render_int z ++ follow) o es) fr
+           (Done true (VInt z) (mkst follow (o + Z.of_nat (List.length (render_int z))) es) fr))
+  /\ (forall content t cr o es fr, run_of p_strch content -> ascii_next t ->
+     evals (CRef 30) cr (mkst (34 :: content ++ 34 :: t) o es) fr
+           (Done true (VStr content) (mkst t (o + 1 + Z.of_nat (List.length content) + 1) es) fr)).
+Proof. exact (conj const_value_int const_value_str). Qed.
+Print Assumptions c10_const_value_roundtrip.
 
 (** the derivation of a field type alone: FieldType on any rendered type, followed by anything that is
     not a blank, '/' or '(', consumes exactly the type and returns its tree *)
@@ -334,7 +356,7 @@ Qed.
 
 (** declarations satisfying the hypotheses of the struct round-trip theorem:
       struct S<lf>{<lf>  1: i32 a,<lf>  2 :required list<map< string ,set<i64>> > b ;<lf>  -3:optional binary c}<sp><lf>
-      union U {1:bool x<lf>}<lf>exception E{}<lf>typedef i64 T<lf>                                         *)
+      union U {1:bool x<lf>}<lf>exception E{}<lf>typedef i64 T<lf>const i32 N = -42<lf>const  map<string,i64> s="a b,c" <lf>   *)
 Example c10_roundtrip_structs_nonvacuous :
   let f1 := mk_fd 1 [] [32] M_default (T_base (bytes_of_string "i32") [32]) 97 [] (FT_sep [] 44 [10; 32; 32]) in
   let ty2 := T_list [] (T_map [32] (T_base (bytes_of_string "string") [32]) [] (T_set [] (T_base (bytes_of_string "i64") []) []) [32]) [32] in
@@ -344,15 +366,23 @@ Example c10_roundtrip_structs_nonvacuous :
   let d2 := mk_st K_union [32] (mk_sl 85 [] [32] [] [mk_fd 1 [] [] M_default (T_base (bytes_of_string "bool") [32]) 120 [] (FT_plain [10])] [] []) in
   let d3 := mk_st K_exception [32] (mk_sl 69 [] [] [] [] [] []) in
   let d4 := mk_td [32] (bytes_of_string "i64") [32] 84 [] [] [] in
-  let ds := [X_struct d1; X_struct d2; X_struct d3; X_typedef d4] in
+  let d5 := mk_cn [32] (T_base (bytes_of_string "i32") [32]) 78 [] [32] [32] (CV_int (-42)) [] [] in
+  let d6 := mk_cn [32; 32] (T_map [] (T_base (bytes_of_string "string") []) [] (T_base (bytes_of_string "i64") []) [32])
+                  115 [] [] [] (CV_str (bytes_of_string "a b,c")) [32] [] in
+  let ds := [X_struct d1; X_struct d2; X_struct d3; X_typedef d4; X_const d5; X_const d6] in
   Forall xdecl_ok ds
   /\ render_file ds = cat [bytes_of_string "struct S"; [10]; bytes_of_string "{"; [10]; bytes_of_string "  1: i32 a,"; [10];
                            bytes_of_string "  2 :required list<map< string ,set<i64>> > b ;"; [10];
                            bytes_of_string "  -3:optional binary c} "; [10];
                            bytes_of_string "union U {1:bool x"; [10]; bytes_of_string "}"; [10]; bytes_of_string "exception E{}"; [10];
-                           bytes_of_string "typedef i64 T"; [10]]
+                           bytes_of_string "typedef i64 T"; [10]; bytes_of_string "const i32 N = -42"; [10];
+                           bytes_of_string "const  map<string,i64> s="; [34]; bytes_of_string "a b,c"; [34; 32; 10]]
   /\ parse_idl (render_file ds)
-     = POk (mkfrugal [] [] [mktypedef None [84] (PType (bytes_of_string "i64") None None []) []] [] []
+     = POk (mkfrugal [] [] [mktypedef None [84] (PType (bytes_of_string "i64") None None []) []]
+              [mkconst None [78] (PType (bytes_of_string "i32") None None []) (CInt (-42)) [];
+               mkconst None [115] (PType (bytes_of_string "map") (Some (PType (bytes_of_string "string") None None []))
+                                         (Some (PType (bytes_of_string "i64") None None [])) [])
+                       (CStr (bytes_of_string "a b,c")) []] []
               [mkstruct None [83]
                  [mkfield None 1 [97] m_default (PType (bytes_of_string "i32") None None []) None [];
                   mkfield None 2 [98] m_required
@@ -376,6 +406,7 @@ Proof.
              | |- st_ok _ => unfold st_ok; cbn
              | |- sl_ok _ => unfold sl_ok; cbn
              | |- td_ok _ => unfold td_ok; cbn
+             | |- cn_ok _ => unfold cn_ok; cbn
              | |- fd_ok_l _ _ => unfold fd_ok_l; cbn
              | |- mod_ok _ => unfold mod_ok; cbn
              | |- fd_tail_ok_l _ _ => unfold fd_tail_ok_l, fd_tail_ok; cbn
